@@ -282,8 +282,19 @@ class C03Monitor(Monitor):
         R.check('c03.fraction_bounds', bool(np.all((fv >= 0) & (fv <= 1)) and np.all(np.sum(fv, axis=1) <= 1 + 1e-12)),
                 dict(mech, nphases=len(model.phases)), max_total=float(np.nanmax(np.sum(fv, axis=1))), min=float(np.nanmin(fv)))
         comp = np.asarray(pd.composition, dtype=float)
-        R.check('c03.composition_bounds', bool(np.all((comp >= 0) & (comp <= 1))), mech,
-                min=float(np.nanmin(comp)), max=float(np.nanmax(comp)))
+        okc = bool(np.all((comp >= 0) & (comp <= 1)))
+        cm = dict(mech)
+        if not okc:
+            # structural facts for the classifier: which bound, and whether every offending record is a state in which another
+            # solute sits on the documented clamp (negative matrix composition -> minimum composition), i.e. the mass balance
+            # had already left its domain
+            above = comp > 1
+            below = comp < 0
+            cm['bound'] = 'above_one' if np.any(above) and not np.any(below) else ('below_zero' if np.any(below) and not np.any(above) else 'both')
+            rows = np.any(above | below, axis=1)
+            cm['other_solute_on_documented_clamp'] = bool(comp.shape[1] > 1 and np.all(np.any(comp[rows] == model.constraints.minComposition, axis=1)))
+            cm['total_fraction_reached_one'] = bool(np.nanmax(np.sum(fv, axis=1)) >= 1 - 1e-12)
+        R.check('c03.composition_bounds', okc, cm, min=float(np.nanmin(comp)), max=float(np.nanmax(comp)))
         for k in ('Ravg', 'Rcrit', 'Rnuc', 'precipitateDensity', 'nucRate'):
             a = np.asarray(getattr(pd, k), dtype=float)
             R.check('c03.nonnegative', bool(np.all(a >= 0)), dict(mech, history=k), min=float(np.nanmin(a)))
